@@ -57,6 +57,9 @@ func runC12(c *Ctx) {
 	checkBytesFilter(r, p)
 	checkRings(r, p)
 	checkWalkerBulk(r, p)
+	// the Walker keeps its pushed elements in an OrderedMap (Set's "existed before" result decides
+	// whether an element is a repeat, Clear implements Reset)
+	checkOrderedMapCoupling(r, p)
 	checkOnChangeMap(r, p)
 	checkPriorityQueueBound(r, p)
 
